@@ -20,7 +20,7 @@
    ancestor_mapper_init_ancestors, kept because tests/test_lowlevel.py::test_link_ancestors
    relies on it); `_mutant_refuted` theorems are about seeded changes, not about /repo. *)
 From Coq Require Import List ZArith Bool.
-From TskVerif Require Import Base.Common C09.Guards C09.GuardProofs C09.MapMutations C09.SeekProofs C09.RatesProofs C09.Guards2 C09.Guard2Proofs C09.IndexProofs C09.Guards3 C09.Guard3Proofs.
+From TskVerif Require Import Base.Common C09.Guards C09.GuardProofs C09.MapMutations C09.SeekProofs C09.RatesProofs C09.Guards2 C09.Guard2Proofs C09.IndexProofs C09.Guards3 C09.Guard3Proofs C09.Guards4 C09.Guard4Proofs.
 Import ListNotations.
 Open Scope Z_scope.
 
@@ -339,12 +339,13 @@ Theorem table_columns_unchecked_column_mutant_refuted :
   exists spec given, table_columns_entry spec given = OOB.
 Proof. exact Guard3Proofs.table_columns_unchecked_column_mutant_refuted. Qed.
 
-(* finding C09-N10 (in /repo): genetic_relatedness_weighted never validates its index tuples *)
-Theorem relatedness_weighted_index_tuples_refuted :
+(* finding C09-N10 (fixed f14bc99): at the pinned commit genetic_relatedness_weighted never validated its index
+   tuples; the current model is [relatedness_weighted_entry true] (fact C09_relatedness_weighted_checks_indexes) *)
+Theorem relatedness_weighted_index_tuples_pinned_refuted :
   exists nw idx, 0 < nw /\ relatedness_weighted_entry false nw idx = OOB.
 Proof. exact Guard3Proofs.relatedness_weighted_index_tuples_refuted. Qed.
 
-Theorem guard_implies_in_bounds_relatedness_weighted_repaired : forall nw idx,
+Theorem guard_implies_in_bounds_relatedness_weighted : forall nw idx,
   0 <= nw -> relatedness_weighted_entry true nw idx <> OOB.
 Proof. exact Guard3Proofs.guard_implies_in_bounds_relatedness_weighted_repaired. Qed.
 
@@ -352,3 +353,60 @@ Proof. exact Guard3Proofs.guard_implies_in_bounds_relatedness_weighted_repaired.
 Theorem guard_implies_in_bounds_set_indexes : forall n idx,
   0 <= n -> set_indexes_entry n idx <> OOB.
 Proof. exact Guard3Proofs.guard_implies_in_bounds_set_indexes. Qed.
+
+(* ==== fourth tier (C09/Guards4.v): validation/use pairs and `capacity >= writes` ==== *)
+
+(* IndividualTable.keep_rows: every parent of every kept row is validated before it indexes
+   id_map in subset_remap_ragged_id_column — for all parents lists and keep masks *)
+Theorem guard_implies_in_bounds_individual_keep_rows : forall id_map rows,
+  individual_keep_rows false id_map rows <> OOB.
+Proof. exact Guard4Proofs.guard_implies_in_bounds_individual_keep_rows. Qed.
+
+(* seeded change C09-7: `break` instead of `continue` at the first TSK_NULL parent *)
+Theorem individual_keep_rows_break_mutant_refuted :
+  exists id_map rows, individual_keep_rows true id_map rows = OOB.
+Proof. exact Guard4Proofs.individual_keep_rows_break_mutant_refuted. Qed.
+
+(* two-site statistics: the scratch array `sites` (num_sites elements in /repo) has room for the
+   union of the row and column site lists that get_site_row_col_indices writes into it, for all
+   lists accepted by check_sites; no fuel exhaustion either *)
+Theorem two_site_scratch_capacity_table : forall num_sites rows cols,
+  0 <= num_sites -> incr 0 rows num_sites -> incr 0 cols num_sites ->
+  two_site_scratch num_sites rows cols <> OOB /\ two_site_scratch num_sites rows cols <> Fuel.
+Proof. exact Guard4Proofs.two_site_scratch_capacity_table. Qed.
+
+Theorem two_site_entry_capacity : forall num_sites rows cols,
+  0 <= num_sites -> check_sites true num_sites rows = Ok tt -> check_sites true num_sites cols = Ok tt ->
+  two_site_scratch num_sites rows cols <> OOB.
+Proof. exact Guard4Proofs.two_site_entry_capacity. Qed.
+
+(* n_rows + n_cols elements suffice for ANY two lists *)
+Theorem two_site_scratch_capacity_sum : forall rows cols,
+  two_site_scratch (zlen rows + zlen cols) rows cols <> OOB.
+Proof. exact Guard4Proofs.two_site_scratch_capacity_sum. Qed.
+
+(* seeded change C09-8: max(n_rows, n_cols) elements are not enough *)
+Theorem two_site_scratch_max_capacity_mutant_refuted :
+  exists rows cols, incr 0 rows 2 /\ incr 0 cols 2 /\
+    two_site_scratch (Z.max (zlen rows) (zlen cols)) rows cols = OOB.
+Proof. exact Guard4Proofs.two_site_scratch_max_capacity_mutant_refuted. Qed.
+
+(* Variant sample lists: the seeded change C09-6 (bound test only inside the !impute_missing
+   block) is refuted; the code in /repo is in bounds for both settings; the copy of the sample
+   list into alt_samples needs num_samples <= num_samples_alloc *)
+Theorem variant_guard_inside_impute_block_mutant_refuted :
+  exists N flags samples, 0 <= N /\ zlen flags = N /\
+    variant_index_map_v true true N flags 0 (alloc N TSK_NULL) samples = OOB.
+Proof. exact Guard4Proofs.variant_guard_inside_impute_block_mutant_refuted. Qed.
+
+Theorem guard_implies_in_bounds_variant_index_map : forall imp N flags samples j map,
+  zlen flags = N -> zlen map = N -> variant_index_map_v false imp N flags j map samples <> OOB.
+Proof. exact Guard4Proofs.guard_implies_in_bounds_variant_index_map. Qed.
+
+Theorem variant_copy_samples_capacity : forall cap samples,
+  zlen samples <= cap -> variant_copy_samples cap samples <> OOB.
+Proof. exact Guard4Proofs.variant_copy_samples_capacity. Qed.
+
+Theorem variant_copy_samples_too_small_refuted :
+  exists cap samples, cap < zlen samples /\ variant_copy_samples cap samples = OOB.
+Proof. exact Guard4Proofs.variant_copy_samples_too_small_refuted. Qed.
